@@ -17,7 +17,9 @@ import (
 
 // 把packet序列化为字节流，有压缩和加密
 func marshalPacketBody(pkt fatchoy.IPacket, threshold int, encryptor cipher.BlockCryptor) ([]byte, error) {
-	var flag = pkt.Flag()
+	// the two marshalling bits describe the body produced by THIS call; bits left over from an
+	// earlier encode of the same packet (other codec, other threshold, other cipher) are dropped
+	var flag = pkt.Flag() &^ (fatchoy.PFlagCompressed | fatchoy.PFlagEncrypted)
 	var body = pkt.BodyToBytes()
 	if threshold > 0 && len(body) > threshold {
 		if data, err := fsutil.CompressBytes(body); err != nil {
